@@ -42,3 +42,66 @@ def c18(ctx):
     ctx.undecided_clauses.append("'for every accepted log configuration the ceiling decodes to max_count, otherwise ValueError' "
                                  "(_find_base: convergence of a 200-step floating-point Newton iteration) -- numeric, not decided")
     ctx.assumptions.append("_counter2value(...) >= 0 (base > 1 is enforced by _find_base raising otherwise)")
+
+
+# ---------------------------------------------------------------------------
+
+@prop("C01", "other",
+      "Structural necessary conditions of the count-min bounds, decided on every path of the three linear kernels: the "
+      "estimate is a running minimum over range(depth) of exactly the cells cms[row, fasthash64(key,row) % width] (qmin, addr); "
+      "the add raises only those cells, only upward, all to the same min(old_min + v, 2^32-1) (cons, newcount, mono, range); "
+      "the Python multiplicity is capped before the uint32 parameter (cap); the merge stores min(a + b, 2^32-1) in every "
+      "cell, once, over the whole table, reading but never writing the second operand (msum, cover, other-ro). "
+      "Not decided: the arithmetic induction from these facts to the two bounds (hand argument in DESIGN.md) and FastHash itself (C11).")
+def c01(ctx):
+    F = facts_of(ctx)
+    lin = [("countmin", "CountMinLinear")]
+    RA.rule_bind(ctx, lin)
+    RA.rule_attr_type(ctx, lin)
+    RA.rule_ceil(ctx)
+    ks = [k for k in RA.query_kernels(F) if k.name.endswith("linear")]
+    aks = [k for k in RA.add_kernels(F) if k.name.endswith("linear")]
+    if not ks or not aks:
+        from .model import AnalysisError
+        raise AnalysisError("linear query/add kernels not found through CountMinLinear.query/add")
+    RA.rule_qmin(ctx, ks)
+    RA.rule_cons(ctx, aks)
+    RA.rule_newcount(ctx)
+    RA.rule_cap(ctx, lin)
+    RA.rule_range(ctx, {"cms"})
+    RA.rule_mono(ctx, {"cms"})
+    RA.rule_msum(ctx)
+    mk = RA.merge_kernels(F, lin)
+    RA.rule_cover(ctx, mk)
+    RA.rule_other_ro(ctx, mk)
+    RA.rule_sumcounters(ctx, mk)
+    ctx.floor("qmin", 5)
+    ctx.floor("cons", 3)
+    ctx.floor("msum", 3)
+    ctx.floor("cap", 1)
+    ctx.undecided_clauses.append("the inductive arithmetic from (cons, qmin, msum) to 'true <= estimate <= classic count-min value' is a hand argument (DESIGN.md C01)")
+
+
+@prop("C05", "other",
+      "Conservative-update shape decided for all three counter types: one table store site per add kernel, inside one "
+      "loop over range(depth), indexed [row, buckets[row]] with buckets freshly produced by the dominating query of the same "
+      "key; the store is guarded so that it never lowers a cell; the stored value is the same new_count for every row, equal "
+      "to min(old_min + v, ceiling) (linear) or to the _log_counter step of (old_min, v) (log); _log_counter moves by +1 per "
+      "step, at most v steps, deterministically exactly when counter < num_reserved; n_added grows once by the multiplicity applied. "
+      "Not decided: the distribution of log steps (C06).")
+def c05(ctx):
+    F = facts_of(ctx)
+    RA.rule_bind(ctx, COUNTMIN)
+    RA.rule_ceil(ctx)
+    RA.rule_qmin(ctx)
+    RA.rule_cons(ctx)
+    RA.rule_newcount(ctx)
+    RA.rule_mono(ctx, {"cms"})
+    RA.rule_logstep(ctx)
+    RA.rule_nadd_once(ctx, RA.add_kernels(F))
+    ctx.floor("qmin", 15)
+    ctx.floor("cons", 9)
+    ctx.floor("addr", 3)
+    ctx.floor("newcount", 3)
+    ctx.floor("nadd-once", 6)
+    ctx.undecided_clauses.append("the step num_reserved -> num_reserved+1 being certain relies on rand < base**0 (numeric); distribution of log steps (C06)")
